@@ -8,7 +8,7 @@ COMMON_TRUSTED = [
 ]
 
 PROPS = {}
-HOOK_COMMITS = []
+HOOK_COMMITS = ["f0964c3"]
 NOT_BUILT_REASON = "no check registered yet: the Lean model/theorems and the correspondence harness for this property have not been built in this session (work in progress, see DESIGN.md §12); the technique applies"
 
 PROPS["C05"] = {
@@ -91,4 +91,23 @@ PROPS["C19"] = {
     ],
     "assumptions": ["the source honours the io.Reader contract and makes progress eventually (a source returning (0, nil) forever is outside the property)"],
     "not_proved": ["enc_dec_stream as a theorem about the P7BlockEnc/P7BlockDecrypt loops (correspondence only)", "progress: Read with a non-empty buffer eventually returns data or EOF (argued from the script being finite; not a theorem)"],
+}
+
+PROPS["C12"] = {
+    "modules": ["Gmsm.Props.C12"],
+    "theorems": [
+        "Props.C12.dec_enc", "Props.C12.sm4gcm_dec_enc", "Props.C12.ae_lengths", "Props.C12.tag_flip",
+        "Props.C12.mul_linear", "Props.C12.ghash_single_block_partial", "Props.C12.counter_no_repeat",
+        "Proofs.GCM.gctr_involution", "Proofs.GCM.inc32_low", "Proofs.GCM.inc32_high",
+    ],
+    "gen_items": ["sm4."],
+    "level": "proof",
+    "claim": "Spec.GCM is SP 800-38D in Lean (validated on the RFC 8998 SM4-GCM vector and against crypto/cipher GCM over SM4 on every run). Theorems for every key, IV, additional data and plaintext: AD(AE(P)) = P with the tag accepted (GCTR involution), lengths, a tag is accepted iff it equals the recomputed one, GF(2^128) multiplication is linear, counter blocks never repeat below 2^32 blocks, and — for hash keys H whose multiplication is injective — changing any single GHASH block changes the tag (the _partial authentication theorem; the unconditional field statement is not proved). The repaired sm4_gcm.go (GCMEncrypt/GCMDecrypt/GHASH/multiplication) and the TLS suites' GCM are compared with the spec on every run.",
+    "note": "Trusted: Lean kernel; the SP 800-38D transcription; equality of sm4_gcm.go with the spec is by differential runs (all |A|,|P| in 0..40 quick / 0..80 thorough, IV lengths 1..64 with 0xff/0xfe bias, single-bit tampering), not by translation; GF(2^128) has no zero divisors is a hypothesis of the authentication theorem.",
+    "trusted_base": [
+        "Spec.GCM transcription of NIST SP 800-38D (Algorithms 1-5)",
+        "sm4_gcm.go is tied to Spec.GCM by the gcmenc/gcmdec/ghash/gfmul correspondence (hook: sm4.VerifMultiplication); crypto/cipher GCM over sm4.NewCipher (TLS path) by gcmtls",
+    ],
+    "assumptions": ["hypothesis of ghash_single_block_partial: multiplication by the hash key H is injective (holds for every H != 0 in the field GF(2^128))"],
+    "not_proved": ["GF(2^128) no-zero-divisors for the bit-level mulGF (T3)", "byte-level Go multiplication = Spec.mulGF as a theorem (correspondence only)"],
 }
